@@ -578,10 +578,18 @@ def step (line : String) : String :=
     | _, _ => "bad-op")
   | _ => "bad-op"
 
+/-- `seq A ;; B ;; ...`: the calls one after the other; the model has no state, so the results
+    are the results of the calls taken alone -/
+def stepLine (line : String) : String :=
+  let l := line.trimAscii.toString
+  if l.startsWith "seq " then
+    " ;; ".intercalate (((l.drop 4).toString.splitOn " ;; ").map (fun c => "[" ++ step c ++ "]"))
+  else step line
+
 partial def loop (h : IO.FS.Stream) (out : IO.FS.Stream) : IO Unit := do
   let line ← h.getLine
   if line.isEmpty then return ()
-  out.putStrLn (step line)
+  out.putStrLn (stepLine line)
   loop h out
 
 end Drv
